@@ -30,6 +30,9 @@ struct Inner {
     trace_on: bool,
     max_picks: u64,
     overflow: bool,
+    /// consecutive picks at which the picked thread only reported "blocked" (nothing else happened)
+    idle_streak: u64,
+    pub stalled: bool,
 }
 
 pub struct Sched {
@@ -60,6 +63,8 @@ impl Sched {
                 trace_on,
                 max_picks: 200_000,
                 overflow: false,
+                idle_streak: 0,
+                stalled: false,
             }),
             cv: Condvar::new(),
         })
@@ -142,6 +147,7 @@ impl Sched {
             return;
         }
         g.states[tid] = TState::Ready(label);
+        g.idle_streak = 0;
         Self::pick(&mut g, Some(tid));
         if g.current != Some(tid) {
             self.cv.notify_all();
@@ -151,9 +157,53 @@ impl Sched {
         }
     }
 
+    /// Like `point`, for a thread that cannot make progress by itself (its future is pending): another ready thread
+    /// is preferred whenever there is one. Returns true when every unfinished thread has only been reporting
+    /// "blocked" for a long time — nobody can make progress any more (lost wake-up / deadlock).
+    pub fn blocked(&self, tid: usize) -> bool {
+        let mut g = self.inner.lock().unwrap();
+        if g.current != Some(tid) {
+            return g.stalled;
+        }
+        g.idle_streak += 1;
+        if g.idle_streak > 2_000 {
+            g.stalled = true;
+        }
+        if g.stalled {
+            return true;
+        }
+        g.states[tid] = TState::Ready("blocked");
+        let others: Vec<usize> = g.states.iter().enumerate().filter(|(i, s)| *i != tid && matches!(s, TState::Ready(_))).map(|(i, _)| i).collect();
+        if others.is_empty() {
+            g.states[tid] = TState::Running;
+            return false;
+        }
+        let k = g.rng.usize_below(others.len());
+        let chosen = others[k];
+        g.n_picks += 1;
+        g.switches += 1;
+        if let TState::Ready(label) = g.states[chosen] {
+            if g.trace_on {
+                g.trace.push((chosen, label));
+            }
+        }
+        g.states[chosen] = TState::Running;
+        g.current = Some(chosen);
+        self.cv.notify_all();
+        while g.current != Some(tid) {
+            g = self.cv.wait(g).unwrap();
+        }
+        g.stalled
+    }
+
+    pub fn is_stalled(&self) -> bool {
+        self.inner.lock().unwrap().stalled
+    }
+
     pub fn finish(&self, tid: usize) {
         let mut g = self.inner.lock().unwrap();
         g.states[tid] = TState::Finished;
+        g.idle_streak = 0;
         if g.current == Some(tid) {
             Self::pick(&mut g, None);
             self.cv.notify_all();
